@@ -11,7 +11,7 @@ import gen
 import p_poly as pp
 
 ORDERS = [None, [1], [2], [3], [4], [5], [1, 2, 3, 4, 5], [2, 1], [5, 4, 3, 2, 1], [3, 1, 2]]
-WIRINGS = ["independent", "cascade", "cascade_rev", "shared_inputs", "feedback", "cascade2", "cascade_onesided"]
+WIRINGS = ["independent", "cascade", "cascade_rev", "shared_inputs", "feedback", "cascade2", "cascade_onesided", "kaykobad3"]
 
 
 # ------------------------------------------------------------------ generators
@@ -37,6 +37,22 @@ def two_sided(rng, lin, p, width=4):
 def gen_pair(rng, wiring=None):
     """Two composable polyhedral contracts (dicts a,g,i,o) in the requested wiring."""
     wiring = wiring or rng.choice(WIRINGS)
+    if wiring == "kaykobad3":
+        # producer: three outputs tied together by a matrix of guarantees; consumer: one assumption (and one guarantee) over all
+        # three (the Kaykobad test of tactics 1 and 3 decides whether the rows may be solved as equalities)
+        ts, rows, elim, kept = gen.kaykobad_case(rng, True, names=["y", "z", "u", "x", "w"])
+        ts2, _, _, _ = gen.kaykobad_case(rng, False, names=["y", "z", "u", "x", "w"])
+        g2 = {k: a for k, a in ts2[0][0].items() if k in elim}
+        g2["v"] = F(-1)
+        c1 = {"a": [], "g": [t for t in rows], "i": ["x"], "o": list(elim)}
+        c2 = {"a": [({k: a for k, a in ts[0][0].items() if k != "x"} | {"w": F(1)}, ts[0][1])], "g": [(g2, F(0)), ({"v": F(1)}, F(50))],
+              "i": list(elim) + ["w"], "o": ["v"]}
+        for t in c1["g"]:
+            if "w" in t[0]:
+                t[0]["x"] = t[0].pop("w")
+        if rng.random() < 0.5:
+            c1, c2 = c2, c1
+        return wiring, c1, c2
     if wiring == "independent":
         i1, o1, i2, o2 = ["x"], ["y"], ["u"], ["v"]
     elif wiring in ("cascade", "cascade_rev"):
@@ -109,7 +125,19 @@ def overlap_guarantees(rng, c1, c2):
     if not pool:
         return
     t = gen.rand_term(rng, pool, "dyadic", pmax=1)
-    mode = rng.choice(["identical", "scaled", "implied"])
+    mode = rng.choice(["identical", "scaled", "implied", "near_equal"])
+    both = [v for v in c1["i"] + c1["o"] if v in c2["i"] + c2["o"] and v not in (set(c1["o"]) & set(c2["i"])) | (set(c2["o"]) & set(c1["i"]))]
+    if mode == "near_equal":
+        # two different guarantees that agree up to 4e-6 relative in one coefficient (4e-3 apart at the edge of the box),
+        # over two shared inputs that nothing else constrains
+        x, y = "p", "q"
+        for c in (c1, c2):
+            c["i"] = list(c["i"]) + [x, y]
+        t = ({x: gen.rand_coef(rng, "pow2"), y: gen.rand_coef(rng, "pow2")}, F(rng.randint(0, 6)))
+        t2 = ({x: t[0][x] * (1 + F(1, 2 ** 18)), y: t[0][y]}, t[1])
+        c1["g"].append(t)
+        c2["g"].append(t2)
+        return
     c1["g"].append(t)
     if all(v in c2["i"] + c2["o"] for v in t[0]):
         if mode == "identical":
